@@ -5,7 +5,7 @@ from .pipeline import *
 NANO=1000000000
 def sym_instant(run,b,name):
     s=z3.BitVec(name+'_secs',64); n=z3.BitVec(name+'_nanos',32)
-    run.solver.add(z3.ULT(n,NANO))
+    run.add(z3.ULT(n,NANO))
     return b.datetime(Int(64,True,s),Int(32,False,n))
 def instant_lt(a,b):
     s1,n1=a.f[0].z(),a.f[1].z(); s2,n2=b.f[0].z(),b.f[1].z()
@@ -24,7 +24,7 @@ class Expiry(PipelineBase):
     def mk_args(self,run):
         b=self.b; OWN=0; F=1
         exp=sym_instant(run,b,'expires'); now0=sym_instant(run,b,'now0'); now1=sym_instant(run,b,'now1')
-        run.solver.add(z3.Not(instant_lt(now1,now0)))
+        run.add(z3.Not(instant_lt(now1,now0)))
         dirs={():[]}; steps=[]; keys=[]; inner_exp=None
         if self.sub:
             inner_exp=sym_instant(run,b,'inner_expires')
@@ -87,10 +87,10 @@ class ParseInstant(Obligation):
         mode=['parse','roundtrip'][run.pick(2,'mode')]
         if mode=='parse':
             loc=z3.BitVec('local_secs',64); off=z3.BitVec('offset',32); nan=z3.BitVec('nanos',32)
-            run.solver.add(off>-86400,off<86400,z3.SRem(off,60)==0,z3.ULT(nan,1000000000),loc>-(1<<40),loc<(1<<40))
+            run.add(off>-86400,off<86400,z3.SRem(off,60)==0,z3.ULT(nan,1000000000),loc>-(1<<40),loc<(1<<40))
             s=Ref(Cell(Str(list(b'<rfc3339>'),True,True,{'kind':'rfc3339','local_secs':loc,'nanos':nan,'offset':off})))
             return ['parse',s],{'mode':mode,'loc':loc,'off':off,'nan':nan}
-        t=z3.BitVec('t_secs',64); n=z3.BitVec('t_nanos',32); run.solver.add(z3.ULT(n,1000000000),t>-(1<<40),t<(1<<40))
+        t=z3.BitVec('t_secs',64); n=z3.BitVec('t_nanos',32); run.add(z3.ULT(n,1000000000),t>-(1<<40),t<(1<<40))
         return ['roundtrip',self.b.datetime(Int(64,True,t),Int(32,False,n))],{'mode':mode,'t':t,'n':n}
     def check(self,run,out,g):
         oc=outcome_of(out); rec={'outcome':oc,'viol':None,'wit':[],'sample':None,'obl':1}
